@@ -441,6 +441,13 @@ impl Store {
                         crate::verif::waiting(vlive, "recv");
                     }
 
+                    // The historical replay may already have delivered `limit` frames
+                    if let Some(limit) = limit {
+                        if count >= limit {
+                            return;
+                        }
+                    }
+
                     let mut broadcast_rx = broadcast_rx;
                     while let Ok(frame) = broadcast_rx.recv().await {
                         #[cfg(xs_verif)]
